@@ -200,6 +200,9 @@ fn inputs_exec2(who: (bool, bool), thorough: bool, ctx: &WorkerCtx) -> ExecResul
         };
         cw.w.gates.set_active(&[]);
         let negotiated_hdr = cw.conn.negotiated_flags().map(|f| f.as_u64() & DIST_HDR != 0).unwrap_or(false);
+        // what the peer goes by is what this side announced in its name and complement messages
+        let announced_hdr = cw.announced_flags & DIST_HDR != 0;
+        if announced_hdr != who.0 { res.violations.push(("the handshake announces other capabilities than the connection was configured with".into(), json!({"configured_with_distribution_headers": who.0, "announced": announced_hdr, "announced_flags": format!("{:#x}", cw.announced_flags)}))); return res; }
         if negotiated_hdr != dist_hdr { res.violations.push(("negotiated framing mode differs from the intersection of both sides' flags".into(), json!({"expected_header_mode": dist_hdr}))); return res; }
         let mut cache = RxCache::default();
         let mut seen_frames = 0usize;
@@ -607,6 +610,32 @@ pub fn stalled_conn_exec(case: &(usize, bool, bool), ctx: &WorkerCtx) -> ExecRes
     })
 }
 
+/// A send that returned Ok has handed its frame to the transport: closing (or dropping) the connection right afterwards does
+/// not take it back. The peer, which starts reading only after the close, still reads the whole frame.
+fn close_after_send_exec(case: &(usize, bool), ctx: &WorkerCtx) -> ExecResult {
+    let (kib, drop_instead) = *case;
+    run_rt(async move {
+        let mut res = ExecResult::default();
+        let mut cw = match conn_world(ctx, flags_default(), flags_default()).await { Ok(x) => x, Err(e) => { res.violations.push(("could not establish the connection under a conforming peer".into(), json!({"error": e}))); return res; } };
+        cw.w.gates.set_active(&[]);
+        let msg = OwnedTerm::Tuple(vec![OwnedTerm::atom("last_words"), OwnedTerm::Binary((0..kib << 10).map(|i| (i % 251) as u8).collect())]);
+        let want = DistMsg { control: RefVal::Tuple(vec![RefVal::int(2), RefVal::atom(""), den_pid(&pid_remote(10))]), payload: Some(denote(&msg)) };
+        // the peer does not read while the operation runs (what fits the socket buffers is accepted, the rest would block: sizes
+        // are chosen below that)
+        let r = cw.conn.send_message(pid_plain(1), pid_remote(10), msg).await;
+        if drop_instead { drop(cw.conn); } else { let _ = cw.conn.close().await; drop(cw.conn); }
+        for _ in 0..200 { cw.w.yield_once().await; }
+        let no_probe = || 0u64;
+        for _ in 0..50 { cw.w.settle(&mut cw.peer, &no_probe).await; if cw.peer.eof { break; } }
+        let (frames, rest) = cw.peer.dist_frames();
+        let ok = r.is_ok() && rest.is_empty() && frames.len() == 1 && read_pass_through(&frames[0]).map(|m| same_msg(&m, &want)).unwrap_or(false);
+        if !ok { res.violations.push(("a frame whose send returned Ok did not reach the peer after the connection was closed".into(), json!({"payload_kib": kib, "connection": if drop_instead { "dropped" } else { "closed" }, "send_returned_ok": r.is_ok(), "whole_frames_read": frames.len(), "stray_bytes": rest.len(), "peer_saw_end_of_stream": cw.peer.eof}))); }
+        res.steps = 2;
+        res.outcome = format!("close after send {} {}", kib, drop_instead);
+        res
+    })
+}
+
 /// One caller issues several operations back to back while the connection is held by someone else (the harness holds
 /// its mutex); once it is released the frames must reach the peer in the order the caller issued them.
 fn held_burst_exec(order: &usize, ctx: &WorkerCtx) -> ExecResult {
@@ -706,6 +735,8 @@ pub fn run(rep: &Report) -> Value {
     let thorough = rep.thorough();
     let modes = [false, true];
     let st_inputs: Stats = for_all(rep, "operations x arguments x framing mode", &modes, |m, ctx| inputs_exec(*m, thorough, ctx));
+    let cas = [(1usize, false), (64, false), (512, false), (2048, false), (512, true), (2048, true)];
+    let st_cas: Stats = for_all(rep, "close or drop right after a send returned", &cas, |c, ctx| close_after_send_exec(c, ctx));
     let mixed = [(false, true), (true, false)];
     let st_mixed: Stats = for_all(rep, "operations x arguments when only one side offers distribution headers", &mixed, |m, ctx| inputs_exec2(*m, false, ctx));
     let kinds = [0usize, 1, 2, 3, 4, 5];
@@ -727,7 +758,7 @@ pub fn run(rep: &Report) -> Value {
         let st = explore(rep, &name, b, std::time::Duration::from_secs(if thorough { 600 } else { 30 }), |ch, ctx| concurrent(ch, ctx, t, p, burst));
         conc.push((name, st));
     }
-    let states = st_mixed.executions + st_stallc.executions + st_inputs.executions + st_unc.executions + st_re.executions + st_stall.executions + st_hb.executions + st_rep.executions + conc.iter().map(|c| c.1.executions).sum::<u64>();
+    let states = st_cas.executions + st_mixed.executions + st_stallc.executions + st_inputs.executions + st_unc.executions + st_re.executions + st_stall.executions + st_hb.executions + st_rep.executions + conc.iter().map(|c| c.1.executions).sum::<u64>();
     let transitions = st_inputs.transitions + st_unc.transitions + st_re.transitions + conc.iter().map(|c| c.1.transitions).sum::<u64>();
     let mut samples = vec![json!({"operation": op_list(false)[3].short()}), json!({"operation": op_list(false)[op_list(false).len() - 5].short()})];
     for c in &conc { samples.extend(c.1.samples.iter().take(1).cloned()); }
